@@ -77,6 +77,33 @@ class Prog:
         self.devvars = []   # (name, pin)
         self.features = set()
 
+    # ---------------------------------------------------------------- (de)serialisation
+    def dump(self) -> str:
+        d = {"devvars": self.devvars, "globals": self.globals, "main": self.main,
+             "features": sorted(self.features),
+             "funcs": [{"name": f.name, "nparams": f.nparams, "locals": f.locals,
+                        "globals_written": f.globals_written, "body": f.body,
+                        "returns_value": f.returns_value} for f in self.funcs]}
+        return repr(d)
+
+    @staticmethod
+    def load(text: str) -> "Prog":
+        import ast as _ast
+        d = _ast.literal_eval(text)
+        P = Prog()
+        P.devvars = [tuple(x) for x in d["devvars"]]
+        P.globals = list(d["globals"])
+        P.main = d["main"]
+        P.features = set(d.get("features", []))
+        for fd in d["funcs"]:
+            f = Fn(fd["name"], fd["nparams"])
+            f.locals = list(fd["locals"])
+            f.globals_written = list(fd["globals_written"])
+            f.body = fd["body"]
+            f.returns_value = fd.get("returns_value", False)
+            P.funcs.append(f)
+        return P
+
     # ---------------------------------------------------------------- python text
     def text(self) -> str:
         out = []
